@@ -3,8 +3,8 @@ package main
 import (
 	"fmt"
 
-	"github.com/tuneinsight/lattigo/v6/circuits/common/lintrans"
 	bgvlt "github.com/tuneinsight/lattigo/v6/circuits/bgv/lintrans"
+	"github.com/tuneinsight/lattigo/v6/circuits/common/lintrans"
 	"github.com/tuneinsight/lattigo/v6/core/rlwe"
 	"github.com/tuneinsight/lattigo/v6/schemes/bgv"
 
